@@ -164,8 +164,9 @@ Qed.
 Lemma attrs_keys_fold : forall T l s,
   map fst (attrs (fold_left (new_element T) l s) T) = (rev (map row_sym l) ++ map fst (attrs s T))%list.
 Proof.
-  intros T l. induction l as [|r l IH]; intro s; simpl; auto.
-  rewrite IH. destruct r as [[[[z name] sym] io] unc]. simpl.
+  intros T l. induction l as [|r l IH]; intro s; [reflexivity|].
+  change (fold_left (new_element T) (r :: l) s) with (fold_left (new_element T) l (new_element T s r)).
+  rewrite IH. destruct r as [[[[z name] sym] io] unc].
   assert (E : attrs (new_element T s (z, name, sym, io, unc)) T = (sym, next s) :: attrs s T) by (destruct T; reflexivity).
   rewrite E. simpl. rewrite <- app_assoc. reflexivity.
 Qed.
@@ -255,11 +256,16 @@ Qed.
 (* ---- malformed 'A-Sym' strings raise in every reachable state *)
 Theorem one_two_H_raises : forall s T, Inv element_base s -> step s (ByIsoString T "1-2-H") = (s, RErr ValueErr).
 Proof.
-  intros s T I. eapply unknown_iso_symbol_raises; eauto; try (simpl; discriminate). exact eb_no_empty.
+  intros s T I. apply (unknown_iso_symbol_raises element_base s T "1-2-H" I).
+  - exact eb_no_empty.
+  - simpl. discriminate.
+  - simpl. discriminate.
 Qed.
 Theorem four_D_raises : forall s T, Inv element_base s -> step s (ByIsoString T "4-D") = (s, RErr ValueErr).
 Proof.
-  intros s T I. eapply numbered_DT_raises; eauto using eb_no_D, eb_no_T; simpl; [discriminate|auto].
+  intros s T I. apply (numbered_DT_raises element_base s T "4-D" I eb_no_D eb_no_T).
+  - simpl. discriminate.
+  - left. reflexivity.
 Qed.
 Theorem x_H_raises : forall s T, Inv element_base s -> PosIso s -> step s (ByIsoString T "x-H") = (s, RErr ValueErr).
 Proof. intros s T I P. eapply negative_iso_string_raises; eauto. simpl. lia. Qed.
@@ -270,48 +276,139 @@ Proof.
   intros s T z I R. eapply z_not_in_base_raises; eauto. intro H. apply eb_z_range in H. lia.
 Qed.
 
-(* ---- no isotope row of the regenerated mass table has a non-positive mass number *)
-Lemma posiso_new_element : forall T s r, PosIso s -> hget s (next s) = None -> PosIso (new_element T s r).
+(* ---- no isotope has a non-positive mass number, initially (when the rows have none) and after
+        any operations that add none *)
+Lemma posiso_new_element : forall T s r, PosIso s -> PosIso (new_element T s r).
 Proof.
-  intros T s [[[[z name] sym] io] unc] P F o e a G.
+  intros T s [[[[z name] sym] io] unc] P o e a G.
   assert (E : hget (new_element T s (z, name, sym, io, unc)) o =
               hget (fst (alloc s (OElement T z (lower name) sym (io ++ unc)%list))) o) by (destruct T; reflexivity).
   rewrite E, hget_alloc in G. destruct (Pos.eqb o (next s)); [discriminate|]. eapply P; eauto.
 Qed.
+Lemma posiso_push_attr : forall s T k o, PosIso s -> PosIso (push_attr s T k o).
+Proof. intros s T k o P x e a G. apply (P x e a). destruct T; exact G. Qed.
 
-Lemma posiso_init_table : forall eb s T, Inv eb s -> NoDup (map row_z eb) -> (forall z, dget (elems s T) z = None) ->
-  PosIso s -> PosIso (init_table s T eb).
+Lemma posiso_init_table : forall eb s T, PosIso s -> PosIso (init_table s T eb).
 Proof.
-  intros eb s T I Hnd Hz P. unfold init_table.
-  assert (F : forall l s', Inv eb s' -> incl l eb -> NoDup (map row_z l) ->
-              (forall r, In r l -> dget (elems s' T) (row_z r) = None) -> PosIso s' ->
-              PosIso (fold_left (new_element T) l s')).
-  { induction l as [|r l IH]; intros s' I' Hin Hn Hz' P'; simpl; auto.
-    inversion Hn as [|? ? Hn1 Hn2]; subst.
-    destruct (inv_fold_new_element eb T [r] s' I') as [I1 _]; auto.
-    - intros x [<-|[]]. apply Hin. left. reflexivity.
-    - constructor; [intros []|constructor].
-    - intros x [<-|[]]. apply Hz'. left. reflexivity.
-    - simpl in I1. apply IH; auto.
-      + intros x Hx. apply Hin. right. exact Hx.
-      + intros r' Hr'. rewrite elems_new_element.
-        assert (E : tab_eqb T T = true) by (apply tab_eqb_eq; auto). rewrite E, dget_dset_other.
-        * apply Hz'. right. exact Hr'.
-        * intro E'. apply Hn1. rewrite E'. apply in_map. exact Hr'.
-      + apply posiso_new_element; auto. eapply fresh; eauto. }
-  destruct (inv_fold_new_element eb T eb s I (incl_refl _) Hnd (fun r _ => Hz (row_z r))) as [I1 _].
-  pose proof (F eb s I (incl_refl _) Hnd (fun r _ => Hz (row_z r)) P) as P1.
-  set (s1 := fold_left (new_element T) eb s) in *.
+  intros eb s T P. unfold init_table.
+  assert (F : forall l s', PosIso s' -> PosIso (fold_left (new_element T) l s')).
+  { induction l as [|r l IH]; intros s' P'; simpl; auto. apply IH. apply posiso_new_element. exact P'. }
+  pose proof (F eb s P) as P1. set (s1 := fold_left (new_element T) eb s) in *.
   destruct (alookup "H" (attrs s1 T)) as [h|]; auto.
-  pose proof (posiso_add_isotope eb s1 h 2 I1 P1 ltac:(lia)) as P2.
-  pose proof (inv_add_isotope eb s1 h 2 I1) as I2.
+  pose proof (posiso_add_isotope s1 h 2 P1 ltac:(lia)) as P2.
   destruct (add_isotope s1 h 2) as [s2 [d|e]]; simpl in *; auto.
-  assert (P3 : PosIso (push_attr s2 T "D" d)) by (intros o e a G; apply (P2 o e a); destruct T; exact G).
-  assert (I3 : Inv eb (push_attr s2 T "D" d) \/ True) by (right; exact I).
-  pose proof (fun I3' => posiso_add_isotope eb (push_attr s2 T "D" d) h 3 I3' P3 ltac:(lia)) as P4.
-  (* the invariant of the intermediate state is not needed by posiso_add_isotope's proof, but it is in its
-     statement: rebuild it *)
-  assert (I3' : Inv eb (push_attr s2 T "D" d)).
-  { destruct (PositiveMap.find d (heap s2)) eqn:Gd.
-    - clear P4. admit_placeholder. }
-Abort.
+  pose proof (posiso_add_isotope (push_attr s2 T "D" d) h 3 (posiso_push_attr _ _ _ _ P2) ltac:(lia)) as P4.
+  destruct (add_isotope (push_attr s2 T "D" d) h 3) as [s4 [t|e]]; simpl in *; auto.
+  apply posiso_push_attr. exact P4.
+Qed.
+
+Lemma posiso_mass_init : forall T rows s, Forall (fun za => (0 < snd za)%Z) rows -> PosIso s -> PosIso (mass_init s T rows).
+Proof.
+  intros T rows. unfold mass_init. induction rows as [|[z a] r IH]; intros s F P; simpl; auto.
+  inversion F; subst. destruct (table_getitem s T z); apply IH; auto. apply posiso_add_isotope; auto.
+Qed.
+
+Theorem posiso_init : forall rows, Forall (fun za => (0 < snd za)%Z) rows -> PosIso (init_state element_base rows).
+Proof.
+  intros rows F. unfold init_state. apply posiso_mass_init; auto. apply posiso_init_table.
+  assert (D : forall s, PosIso s -> PosIso (define_elements s)) by (intros s P o e a G; exact (P o e a G)).
+  apply D. apply posiso_mass_init; auto. apply posiso_init_table. intros o e a G.
+  unfold hget in G. simpl in G. rewrite PositiveMap.gempty in G. discriminate.
+Qed.
+
+Lemma the_rows_positive_b : forallb (fun za => (0 <? snd za)%Z) the_rows = true.
+Proof. vm_compute. reflexivity. Qed.
+Lemma the_rows_positive : Forall (fun za => (0 < snd za)%Z) the_rows.
+Proof.
+  apply Forall_forall. intros za H. pose proof the_rows_positive_b as B. rewrite forallb_forall in B.
+  apply Z.ltb_lt. exact (B za H).
+Qed.
+
+(* the state after `import periodictable` + a private table, with the isotopes of the regenerated mass table *)
+Theorem the_init_inv : Inv element_base the_init.
+Proof. apply inv_init_base. Qed.
+Theorem the_init_posiso : PosIso the_init.
+Proof. apply posiso_init. exact the_rows_positive. Qed.
+
+Theorem x_H_raises_reachable : forall ops T, Forall pos_op ops ->
+  let s := run the_init ops in step s (ByIsoString T "x-H") = (s, RErr ValueErr).
+Proof.
+  intros ops T F s. apply x_H_raises.
+  - apply inv_run. exact the_init_inv.
+  - eapply posiso_run; eauto using the_init_inv, the_init_posiso.
+Qed.
+
+(* ---- every symbol, name and number of element_base resolves, in both tables of the initial state,
+        by every route, to one object, the element with that number; every isotope row resolves by
+        element[A] and by 'A-Sym' to one isotope object with that number *)
+Definition r1_is (r : r1) (o : oid) : bool := match r with Ok o' => Pos.eqb o o' | Er _ => false end.
+
+Definition routes_ok (s : state) (T : tabid) (r : Z * string * string * list Z * list Z) : bool :=
+  let '(z, name, sym, _, _) := r in
+  match table_getitem s T z with
+  | Ok o =>
+      (match hget s o with
+       | Some (OElement T' z' n sy _) => tab_eqb T T' && Z.eqb z z' && String.eqb n (lower name) && String.eqb sy sym
+       | _ => false
+       end)
+      && r1_is (by_symbol s T sym) o && r1_is (by_name s T (lower name)) o && r1_is (by_iso_string s T sym) o
+      && (match T with TPub => r1_is (mod_attr s sym) o && r1_is (mod_attr s (lower name)) o | TPriv => true end)
+      && (match pickle s o with (_, Ok o') => Pos.eqb o o' | _ => false end)
+  | Er _ => false
+  end.
+
+Definition iso_routes_ok (s : state) (T : tabid) (za : Z * Z) : bool :=
+  let '(z, a) := za in
+  match table_getitem s T z with
+  | Ok e =>
+      match hget s e, elem_getitem s e a with
+      | Some (OElement _ _ _ sym _), Ok o =>
+          (match hget s o with Some (OIsotope e' a') => Pos.eqb e e' && Z.eqb a a' | _ => false end)
+          && r1_is (by_iso_string s T (Z_to_string a ++ "-" ++ sym)) o
+          && r1_is (snd (add_isotope s e a)) o
+          && (match pickle s o with (_, Ok o') => Pos.eqb o o' | _ => false end)
+      | _, _ => false
+      end
+  | Er _ => false
+  end.
+
+Definition sweep_b (s : state) (rows : list (Z * Z)) : bool :=
+  forallb (fun T => forallb (routes_ok s T) element_base && forallb (iso_routes_ok s T) rows)%bool [TPub; TPriv].
+
+Lemma sweep_the_init : sweep_b the_init the_rows = true.
+Proof. vm_compute. reflexivity. Qed.
+
+Theorem every_element_resolves : forall T r, In r element_base -> routes_ok the_init T r = true.
+Proof.
+  intros T r H. pose proof sweep_the_init as S. unfold sweep_b in S. rewrite forallb_forall in S.
+  assert (HT : In T [TPub; TPriv]) by (destruct T; simpl; auto).
+  specialize (S T HT). apply andb_prop in S. destruct S as [S _]. rewrite forallb_forall in S. exact (S r H).
+Qed.
+Theorem every_isotope_resolves : forall T za, In za the_rows -> iso_routes_ok the_init T za = true.
+Proof.
+  intros T za H. pose proof sweep_the_init as S. unfold sweep_b in S. rewrite forallb_forall in S.
+  assert (HT : In T [TPub; TPriv]) by (destruct T; simpl; auto).
+  specialize (S T HT). apply andb_prop in S. destruct S as [_ S]. rewrite forallb_forall in S. exact (S za H).
+Qed.
+
+(* ---- isotope('0-H'): the string names isotope 0 of hydrogen, which does not exist, and the call
+        returns the element instead of raising *)
+Definition iso_string_names_isotope (eb : ebase) : Prop :=
+  forall rows T num sym o, by_iso_string (init_state eb rows) T (num ++ "-" ++ sym) = Ok o ->
+    exists e a, hget (init_state eb rows) o = Some (OIsotope e a).
+
+Theorem isotope_zero_refuted : ~ iso_string_names_isotope element_base.
+Proof.
+  intro H. destruct (H [] TPub "0" "H" 2%positive) as [e [a G]].
+  - vm_compute. reflexivity.
+  - vm_compute in G. discriminate.
+Qed.
+
+(* what does hold: with a non-zero isotope number the object returned is that isotope *)
+Theorem iso_string_partial : forall s T str o, Inv element_base s -> by_iso_string s T str = Ok o ->
+  fst (parse_iso_string str) <> 0%Z ->
+  exists e, hget s o = Some (OIsotope e (fst (parse_iso_string str))) /            alookup (snd (parse_iso_string str)) (attrs s T) = Some e.
+Proof.
+  intros s T str o I H N. destruct (by_iso_string_obj _ _ _ _ _ I H) as [attr [A [[E _]|[_ G]]]]; [congruence|].
+  exists attr. auto.
+Qed.
